@@ -233,6 +233,8 @@ pub fn describe_canary(c: u64) -> &'static str {
 
 impl Clone for Key {
     fn clone(&self) -> Key {
+        // cloning reads the payload (the map clones keys on the thread that migrates a bin)
+        on_read(self.inst);
         Key {
             k: self.k,
             inst: new_inst(true, self.k, self.inst),
@@ -336,6 +338,7 @@ impl Val {
 
 impl Clone for Val {
     fn clone(&self) -> Val {
+        on_read(self.inst);
         Val {
             id: self.id,
             inst: new_inst(false, self.id, self.inst),
